@@ -18,3 +18,51 @@ Proof. vm_compute. reflexivity. Qed.
 Example ex_break_stops :
   break_output ex_prefix 0 2 ex_out = Some [mkPiece [105;40] 1 2; mkPiece ([41;59;117;40] ++ ex_key_a0 ++ [41]) 0 0].
 Proof. vm_compute. reflexivity. Qed.
+
+From V Require Import C18.Hash C18.HashProofs C18.XXHash C18.NameProofs.
+
+(* a cyclic import graph with a self loop and a duplicate edge: 0 -> 1,2 ; 1 -> 0,1 ; 2 -> 1,1 ; 3 isolated *)
+Definition ex_leaf (imps : list nat) (body : bytes) : chunk := mkChunk true [] [([97], 3)] None body [] [] [] imps.
+Definition ex_graph : list chunk := [ex_leaf [1;2]%nat [1]; ex_leaf [0;1]%nat [2]; ex_leaf [1;1]%nat [3]; ex_leaf [] [4]].
+
+Example ex_wf : wf_graph ex_graph.
+Proof.
+  intros i c E j Hj. cbn [length ex_graph].
+  destruct i as [|[|[|[|i]]]]; cbn in E.
+  - inversion E as [Ec]. rewrite <- Ec in Hj. cbn in Hj. repeat (destruct Hj as [Hj|Hj]; [lia|]). destruct Hj.
+  - inversion E as [Ec]. rewrite <- Ec in Hj. cbn in Hj. repeat (destruct Hj as [Hj|Hj]; [lia|]). destruct Hj.
+  - inversion E as [Ec]. rewrite <- Ec in Hj. cbn in Hj. repeat (destruct Hj as [Hj|Hj]; [lia|]). destruct Hj.
+  - inversion E as [Ec]. rewrite <- Ec in Hj. cbn in Hj. destruct Hj.
+  - destruct i; discriminate.
+Qed.
+
+(* imports are written before the importer, every reachable chunk once, chunk 3 never *)
+Example ex_order0 : final_order ex_graph 0 = Some [1; 2; 0]%nat. Proof. vm_compute. reflexivity. Qed.
+Example ex_order1 : final_order ex_graph 1 = Some [2; 0; 1]%nat. Proof. vm_compute. reflexivity. Qed.
+
+(* the shared visited array of the real loop gives the same streams as fresh traversals *)
+Example ex_loop :
+  final_streams xxh64 [] (fun _ => []) ex_graph =
+  Some (map (fun i => final_stream xxh64 [] (fun _ => []) ex_graph i) [0;1;2;3]%nat).
+Proof. vm_compute. reflexivity. Qed.
+
+(* length prefixes: "a"+"bc" and "ab"+"c" are written differently *)
+Example ex_lenpref : concat (map lenpref [[97]; [98; 99]]) <> concat (map lenpref [[97; 98]; [99]]).
+Proof. vm_compute. discriminate. Qed.
+Example ex_fits : Forall fits32 [[97]; [98; 99]]. Proof. repeat constructor; unfold fits32; cbn; lia. Qed.
+
+(* final_name_changes_with_dependency: editing the body of chunk 2 (reachable from 0 through the cycle) *)
+Definition ex_graph' : list chunk := [ex_leaf [1;2]%nat [1]; ex_leaf [0;1]%nat [2]; ex_leaf [1;1]%nat [33]; ex_leaf [] [4]].
+Example ex_same_imports : map c_imports ex_graph = map c_imports ex_graph'. Proof. reflexivity. Qed.
+Example ex_reach : reach ex_graph 0%nat 2%nat.
+Proof. eapply reach_step; [apply reach_refl|]. exists (ex_leaf [1;2]%nat [1]). split; [reflexivity|right; left; reflexivity]. Qed.
+Example ex_iso_differs :
+  isolated_stream [] (ex_leaf [1;1]%nat [3]) <> isolated_stream [] (ex_leaf [1;1]%nat [33]).
+Proof. vm_compute. discriminate. Qed.
+Example ex_final_differs :
+  final_stream xxh64 [] (fun _ => []) ex_graph 0 <> final_stream xxh64 [] (fun _ => []) ex_graph' 0.
+Proof. vm_compute. discriminate. Qed.
+
+(* the refutation witness, spelled out *)
+Example ex_wit_name : name_of xxh64 (wit_build 1 2) 0 = name_of xxh64 (wit_build 2 1) 0. Proof. vm_compute. reflexivity. Qed.
+Example ex_wit_bytes : bytes_of xxh64 (wit_build 1 2) 0 <> bytes_of xxh64 (wit_build 2 1) 0. Proof. vm_compute. discriminate. Qed.
